@@ -33,6 +33,8 @@ class Engine:
         self.regex_cache: Dict[str, Any] = {}
         self.ext_attrs: Dict[Tuple[str, str], Callable[..., V]] = {}
         self.ext_binops: Dict[Tuple[str, str], Callable[..., V]] = {}
+        self.func_models: Dict[str, Callable[..., V]] = {}  # repository helpers replaced by a model
+        self.ast_model: Any = None  # (is_class(it, v, cls) -> Bool, attr(it, v, name, node, fr) -> V)
 
     def register(self, c: Contract) -> Contract:
         if c.use_as_callee and c.target not in self.contracts:
@@ -165,7 +167,69 @@ class UnitResult:
         }
 
 
-def explore(run: Callable[[Path], None], res: UnitResult, max_paths: int, ob_timeout_ms: int) -> None:
+def _merge_child(res: UnitResult, d: Dict[str, Any]) -> None:
+    for e in d.get("errors", []):
+        if e not in res.errors:
+            res.errors.append(e)
+    res.obligations.extend(d.get("obligations", []))
+    res.paths += d.get("paths", 0)
+    res.returned_paths += d.get("returned", 0)
+    res.branches.update(d.get("notes", []))
+    res.solver_time += d.get("solver_time", 0.0)
+    res.checks += d.get("checks", 0)
+    for a in d.get("assumptions", []):
+        if a not in res.assumptions:
+            res.assumptions.append(a)
+    for q, info in d.get("functions", {}).items():
+        res.functions.setdefault(q, info)
+    for c in d.get("children", []):
+        _merge_child(res, c)
+
+
+def explore_forking(run: Callable[[Path], None], res: UnitResult, ob_timeout_ms: int, engine: Any) -> None:
+    """One execution; at every two-way branch a child process explores the other side (no re-execution
+    of common prefixes) and reports through a pipe."""
+    import pickle
+    path = Path([], ob_timeout_ms=ob_timeout_ms)
+    errors: List[str] = []
+    try:
+        run(path)
+    except PathEnd as e:
+        if os.environ.get("PYVC_DEBUG"):
+            print(f"  [path {path.path_id()}] ended: {e}")
+    except Unsupported as e:
+        errors.append(f"outside-subset: {e}")
+    except RecursionError:
+        errors.append("checker recursion limit")
+    except z3.Z3Exception as e:
+        errors.append(f"z3 exception: {e}")
+    except BaseException as e:  # noqa
+        if path.is_child:
+            errors.append("checker crash: " + traceback.format_exc()[-1200:])
+        else:
+            raise
+    mine = {"errors": errors, "obligations": path.obligations[path.ob_start:], "paths": 1,
+            "returned": 1 if path.reached_return else 0, "notes": list(path.notes),
+            "assumptions": list(path.assumptions_used), "functions": dict(engine.functions_seen),
+            "solver_time": path.solver_time, "checks": path.n_checks, "children": path.child_results}
+    if path.is_child:
+        try:
+            data = pickle.dumps(mine)
+            off = 0
+            while off < len(data):
+                off += os.write(path.report_fd, data[off:off + (1 << 20)])
+        finally:
+            os._exit(0)
+    _merge_child(res, mine)
+
+
+def explore(run: Callable[[Path], None], res: UnitResult, max_paths: int, ob_timeout_ms: int,
+            engine: Any = None) -> None:
+    # forking at branches avoids re-execution but os.fork of a z3-laden process costs more than it saves
+    # here (measured: C19 16 s -> 510 s); kept only as an option
+    if os.environ.get("PYVC_FORK", "0") == "1" and engine is not None:
+        explore_forking(run, res, ob_timeout_ms, engine)
+        return
     preset: List[Tuple[bool, bool]] = []
     while True:
         path = Path(preset, ob_timeout_ms=ob_timeout_ms)
@@ -342,8 +406,8 @@ def verify_function(engine: Engine, c: Contract, ob_timeout_ms: int = 10000) -> 
         for nm, ex in c.twins:
             it.oblige_spec(nm, ex, "postcondition", fi.node, pfr, twin=True)
 
-    explore(run, res, c.max_paths, c.ob_timeout_ms or ob_timeout_ms)
-    res.functions = dict(engine.functions_seen)
+    explore(run, res, c.max_paths, c.ob_timeout_ms or ob_timeout_ms, engine)
+    res.functions.update(engine.functions_seen)
     res.wall = time.time() - t0
     return res
 
@@ -385,8 +449,8 @@ def verify_lemma(engine: Engine, lm: Lemma, ob_timeout_ms: int = 10000) -> UnitR
         for nm, ex in lm.twins:
             _oblige_lemma(it, lm, nm, ex, fr, True)
 
-    explore(run, res, lm.max_paths, lm.ob_timeout_ms or ob_timeout_ms)
-    res.functions = dict(engine.functions_seen)
+    explore(run, res, lm.max_paths, lm.ob_timeout_ms or ob_timeout_ms, engine)
+    res.functions.update(engine.functions_seen)
     res.wall = time.time() - t0
     return res
 
